@@ -3,7 +3,7 @@ from . import has_class
 CFG = {
     "harness": ["v1", "v2"],
     "functional": ["C20.preds"],
-    "required_classes": ["predicates", "predicate-oracle", "positive-assignable", "positive-primitive", "positive-comparable", "any-spelling", "decl-named-like-builtin", "blank-field"],
+    "required_classes": ["predicates-on-declarations-and-placeholders", "predicates", "predicate-oracle", "positive-assignable", "positive-primitive", "positive-comparable", "any-spelling", "decl-named-like-builtin", "blank-field"],
     "rule": "the programs of C01 without generics; IsPrimitive / IsAssignable / IsAnonymousStruct on every Types entry of every package vs the model's predicates on the model universe; soundness oracle on every go/types type of the program: assignable => no pointer/map/slice/chan/func/interface anywhere inside (walk through named types, struct fields, arrays), primitive <=> basic scalar or defined over one, anonymous-struct <=> struct{} literal, v2 comparable <=> types.Comparable; non-trivial = input longer than 12 characters",
     "exhaustive": [],
     "modelled": 'Type.IsPrimitive/IsAssignable/IsAnonymousStruct over the model universe (fuelled through struct members / alias chains); IsComparable delegates to go/types.Comparable on the stored GoType and is checked, not modelled',
